@@ -474,6 +474,19 @@ func TestC04Exhaustive(t *testing.T) {
 			}
 		}
 	}
+	// rank and Maurer beyond 2^20 bits, with matrix / block counts that are not multiples of 2, 4 or 8
+	if shard == 0 {
+		bigRank := c04Case{Test: "rank", Tail: 5, Seed: 77, Runner: false}
+		for k := 0; k < 1031; k++ {
+			bigRank.Blocks = append(bigRank.Blocks, blockSpec{L: []int{32, 32, 32, 31, 32, 30, 32, 29, 32, 7}[k%10], Seed: uint64(5000 + k)})
+		}
+		q := gen.Seq{Family: "uniform", N: 2000003, Seed: 78}
+		for _, c := range []c04Case{bigRank, {Test: "maurer", Seq: &q}} {
+			if _, err := judge("C04", c, checkC04, false); err != nil {
+				t.Fatalf("C04: %v", err)
+			}
+		}
+	}
 	// linear complexity on samples beyond 10^6 bits with block counts that are not multiples of 2, 4 or 8 (chunked / multi-worker implementations)
 	bigs := []struct{ m, nb, tail int }{{500, 2003, 17}, {1000, 1005, 0}, {9, 120005, 3}, {500, 13, 0}, {5000, 201, 99}}
 	for i, b := range bigs {
